@@ -500,6 +500,19 @@ fn declare(
 
 			let function_name = CString::new(name.name.as_bytes())?;
 
+			// Constants are private to their module. If one of them has
+			// the same name as this function, then the constant makes way;
+			// otherwise the function is renamed by LLVM and other modules
+			// can no longer link against it.
+			let clash = unsafe {
+				LLVMGetNamedGlobal(llvm.module, function_name.as_ptr())
+			};
+			if !clash.is_null()
+			{
+				let renamed = CString::new(format!("{}.const", name.name))?;
+				unsafe { LLVMSetValueName(clash, renamed.as_ptr()) };
+			}
+
 			let param_types: Result<Vec<LLVMTypeRef>, anyhow::Error> =
 				parameters
 					.iter()
